@@ -56,7 +56,11 @@ def tasks(tier, seed):
                 ts.append({"id": f"hist(weak slack):{cls}[rect,{cone},N=2,rounds=2]", "fn": "induct_task",
                            "args": {"cls_name": cls, "ctype": "hyperrectangle", "cone": cone, "W": W.tolist(), "N": 2,
                                     "prop": "C01", "tier": tier, "base_only": True, "rounds": 2, "weak_slack": True}, "weight": 20})
-            # the step from the initial state on its own: a failure here is a reachable history
+            # the step from the initial state on its own: a failure here is a reachable history.  Cones whose ratio
+            # (Wα)_n/α_n lies in (1, 1.1) are left to the weak-slack runs: the open finding's counterexample exists there
+            # but is too thin to be realised with margins (rand2d_0, ratio 1.05: realisation queries return unknown)
+            if 1 + 1e-6 < ratio < 1.1:
+                continue
             ts.append({"id": f"base:{cls}[rect,{cone},N=2]", "fn": "induct_task",
                        "args": {"cls_name": cls, "ctype": "hyperrectangle", "cone": cone, "W": W.tolist(), "N": 2,
                                 "prop": "C01", "tier": tier, "base_only": True}, "weight": 5})
